@@ -5,7 +5,12 @@ import os
 import vf
 
 PROP = "C02"
-MATCHERS = {}
+def _m_double_kill(dev):
+    a = dev.get("act", {})
+    return dev.get("kind") == "engine_crash" and a.get("engine") == "Multi_field" and a.get("name", "").startswith("cone_")
+
+
+MATCHERS = {"C02-multifield-kill-in-two-fields": _m_double_kill}
 LIBS = ["-lgmpxx", "-lgmp"]
 
 
@@ -64,7 +69,20 @@ def main(tier):
     tdir = os.path.join(work, "traces")
     os.makedirs(tdir, exist_ok=True)
     vf.run([b_rec, tdir, str(vf.seed()), "40" if tier == "quick" else "400"], ok_codes=(0, 3))
-    files = sorted(glob.glob(os.path.join(tdir, "*.ndjson")))
+    # crashes of the engine (recorded by the driver's parent process) are deviations of their own; the other events
+    # are validated by TLC
+    for fpath in sorted(glob.glob(os.path.join(tdir, "*.ndjson"))):
+        keep = []
+        for line in open(fpath).read().splitlines():
+            if '"op":"crash"' in line:
+                ev_c = json.loads(line)
+                dev = {"kind": "engine_crash", "act": ev_c, "diffs": [{"path": "crash", "exp": None, "got": ev_c.get("signal")}]}
+                if fnd.match(PROP, dev, MATCHERS) is None:
+                    unknown.append(dev)
+            else:
+                keep.append(line)
+        with open(fpath, "w") as f:
+            f.write("\n".join(keep) + "\n")
     # shard the random trace for parallel validation
     big = os.path.join(tdir, "pc_random.ndjson")
     lines = open(big).read().splitlines()
